@@ -18,6 +18,10 @@ struct Rr {
     node: Node,
     probe_timer: Option<Timer<Id>>,
     indirect_timer: Option<Timer<Id>>,
+    /// outstanding periodic-task timers (announce, announce-to-down, gossip)
+    periodic: Vec<Timer<Id>>,
+    /// the previous round was left unfinished (no Ack, indirect-probe timer never delivered): a lagging runtime
+    unfinished: bool,
 }
 
 impl Rr {
@@ -26,6 +30,7 @@ impl Rr {
             match t {
                 Timer::ProbeRandomMember(_) => self.probe_timer = Some(t.clone()),
                 Timer::SendIndirectProbe { .. } => self.indirect_timer = Some(t.clone()),
+                Timer::PeriodicAnnounce(_) | Timer::PeriodicAnnounceDown(_) | Timer::PeriodicGossip(_) => self.periodic.push(t.clone()),
                 _ => {}
             }
         }
@@ -36,13 +41,42 @@ impl Rr {
         self.absorb(&rec);
         Ok(())
     }
-    /// One full probe round; returns the Ping destination (None when no member)
-    fn round(&mut self) -> Result<Option<Id>, V> {
+    /// The periodic tasks run between probe rounds (they re-arm themselves; what they send is not this check's
+    /// business, but they must leave the probing order alone).
+    fn periodic_tasks(&mut self, r: &mut Rng64) -> Verdict {
+        for _ in 0..r.below(3) {
+            if self.periodic.is_empty() {
+                break;
+            }
+            let t = self.periodic.swap_remove(r.usize(self.periodic.len()));
+            let rec = self.node.call(Op::Timer(t));
+            ensure!(rec.res == Res::Ok, "C14/harness", "periodic timer returned {:?}", rec.res);
+            ensure!(rec.pre.sorted_state() == rec.post.sorted_state(), "C14/harness", "periodic task changed the membership");
+            self.absorb(&rec);
+        }
+        Ok(())
+    }
+
+    /// One full probe round; returns the Ping destination (None when no member).
+    /// `leave_unfinished`: no Ack is delivered and the indirect-probe timer is lost (a lagging runtime): the next
+    /// probe timer then reports IncompleteProbeCycle - and must still move on to the next member.
+    fn round_with(&mut self, leave_unfinished: bool) -> Result<Option<Id>, V> {
         let Some(t) = self.probe_timer.take() else {
             return Err(V::new("C14/harness", "no probe timer outstanding"));
         };
         let rec = self.node.call(Op::Timer(t));
-        ensure!(rec.res == Res::Ok, "C14/probe-error", "probe timer returned {:?}", rec.res);
+        if self.unfinished {
+            ensure!(
+                rec.res == Res::Err(crate::node::EK::IncompleteProbeCycle) || rec.res == Res::Ok,
+                "C14/probe-error",
+                "probe timer after an unfinished round returned {:?}",
+                rec.res
+            );
+            ensure!(rec.pre.sorted_state() == rec.post.sorted_state(), "C14/membership-changed", "an unfinished probe round changed the membership: {:?} -> {:?}", rec.pre.state, rec.post.state);
+            self.unfinished = false;
+        } else {
+            ensure!(rec.res == Res::Ok, "C14/probe-error", "probe timer returned {:?}", rec.res);
+        }
         self.absorb(&rec);
         let mut pings = vec![];
         for (to, data) in rec.sends() {
@@ -67,6 +101,11 @@ impl Rr {
             "Ping sent to {dst:?}, record {recd:?}, active members {:?}",
             rec.pre.active
         );
+        if leave_unfinished {
+            self.indirect_timer = None;
+            self.unfinished = true;
+            return Ok(Some(dst));
+        }
         // answer with an Ack from the target at its known incarnation: no state change
         let inc = recd.unwrap().incarnation();
         let h = Header { src: dst, src_incarnation: inc, dst: ME, message: Message::Ack(nr) };
@@ -81,6 +120,10 @@ impl Rr {
             ensure!(rec3.evs.is_empty(), "C14/indirect-after-ack", "indirect probe started although the Ack arrived: {:?}", rec3.evs);
         }
         Ok(Some(dst))
+    }
+
+    fn round(&mut self) -> Result<Option<Id>, V> {
+        self.round_with(false)
     }
 }
 
@@ -104,8 +147,16 @@ fn rr_case(ctx: &Ctx, case: u64, acc: &mut Acc) -> Verdict {
     let mut cfg = Cfg::simple();
     cfg.mps = 1400;
     cfg.rda = 1_000_000;
+    // the periodic tasks of the stock configurations, in half of the cases; a lagging runtime in a quarter
+    let with_periodic = case % 2 == 1;
+    if with_periodic {
+        cfg.pa = Some((cfg.p * 2, r.range(1, 3) as usize));
+        cfg.pad = Some((cfg.p * 3, r.range(1, 3) as usize));
+        cfg.pg = Some((cfg.p / 5, r.range(1, 3) as usize));
+    }
+    let laggy = case % 4 >= 2;
     let node = Node::new(ME, cfg, CodecKind::Hand, HdlCfg::disabled(), r.next());
-    let mut rr = Rr { node, probe_timer: None, indirect_timer: None };
+    let mut rr = Rr { node, probe_timer: None, indirect_timer: None, periodic: vec![], unfinished: false };
 
     // build phase: n + extra actives and d + extra downs in random order, with
     // probe rounds in between (arbitrary cursor), then remove the extras again
@@ -168,11 +219,21 @@ fn rr_case(ctx: &Ctx, case: u64, acc: &mut Acc) -> Verdict {
     // stable phase
     let rounds = 8 * n + 8;
     let mut dsts: Vec<Id> = Vec::with_capacity(rounds);
+    let mut unfinished_rounds = 0u64;
     for _ in 0..rounds {
-        match rr.round()? {
+        if with_periodic {
+            rr.periodic_tasks(&mut r)?;
+        }
+        let lag = laggy && n >= 2 && r.chance(1, 4);
+        unfinished_rounds += u64::from(lag);
+        match rr.round_with(lag)? {
             Some(d) => dsts.push(d),
             None => return Err(V::new("C14/no-ping", "probe round without a Ping although members are active")),
         }
+    }
+    acc.tally("rounds_left_unfinished_by_a_lagging_runtime", unfinished_rounds);
+    if with_periodic {
+        acc.tally("cases_with_periodic_tasks_between_rounds", 1);
     }
     let w = 2 * n - 1;
     let mut maxgap = 0usize;
@@ -225,7 +286,7 @@ pub fn check() -> Check {
     Check {
         id: "C14",
         level: "exploration",
-        rule: "membership built through apply_many/RemoveDown only (n active incl. Suspect, d Down records, 0..2 echoes of the own address under newer generations in any state, extras added and removed, probe rounds interleaved so the cursor is arbitrary), then 8n+8 probe rounds with every Ping acknowledged; every window of 2n-1 consecutive rounds must contain every active member; all (n,d) with n+d<=6 systematically, n up to 12 (quick) / 40 (thorough) sampled, fresh RNG seed per case. Non-trivial: n>=2; distinct by (member order, cursor) layout at the start of the stable phase (from the hook snapshot).",
+        rule: "membership built through apply_many/RemoveDown only (n active incl. Suspect, d Down records, 0..2 echoes of the own address under newer generations in any state, extras added and removed, probe rounds interleaved so the cursor is arbitrary), then 8n+8 probe rounds with every Ping acknowledged (in a quarter of the cases a lagging runtime leaves a quarter of the rounds unfinished: no Ack, indirect-probe timer lost, the next probe timer reports IncompleteProbeCycle and must still move on; in half of the cases the periodic announce / announce-to-down / gossip timers fire between rounds); every window of 2n-1 consecutive rounds must contain every active member; all (n,d) with n+d<=6 systematically, n up to 12 (quick) / 40 (thorough) sampled, fresh RNG seed per case. Non-trivial: n>=2; distinct by (member order, cursor) layout at the start of the stable phase (from the hook snapshot).",
         assumptions: &["the Ack sent by the harness carries the target's recorded incarnation, so no update is applied during the stable phase (asserted)"],
         required: &["probe_rounds_checked", "windows_checked"],
         workloads: vec![Workload { name: "rr", f: rr_case, quick: 48_000, thorough: 400_000, flav: Flav::Checked }],
